@@ -2002,7 +2002,8 @@ func (t *Topic) anotherUserSub(sess *Session, asUid, target types.Uid, asChan bo
 			return nil, errors.New("max subscription count exceeded")
 		}
 
-		if modeGiven == types.ModeUnset {
+		defaultGiven := modeGiven == types.ModeUnset
+		if defaultGiven {
 			// Request to use default access mode for the new subscriptions.
 			// Assuming LevelAuth. Approver should use non-default access if that is not suitable.
 			modeGiven = t.accessFor(auth.LevelAuth)
@@ -2017,6 +2018,16 @@ func (t *Topic) anotherUserSub(sess *Session, asUid, target types.Uid, asChan bo
 		if err != nil {
 			sess.queueOut(ErrUnknownReply(pkt, now))
 			return nil, err
+		}
+
+		if t.cat == types.TopicCatP2P {
+			if defaultGiven && sub != nil {
+				// A p2p topic has no default access: re-creating the subscription of the other
+				// participant restores the grant it had.
+				modeGiven = sub.ModeGiven
+			}
+			// P2P permissions are limited to JRWPA and always include 'A'.
+			modeGiven = (modeGiven & types.ModeCP2P) | types.ModeApprove
 		}
 
 		if sub != nil {
